@@ -1,20 +1,22 @@
 #!/bin/sh
 # Run once after a fresh restore (offline): builds the Lean library + model drivers and the
 # instrumented builds of /repo into /verif/.cache. Checks rebuild incrementally afterwards.
-set -e
 cd "$(dirname "$0")"
 mkdir -p .cache evidence replays
 exes=$(sed -n 's/^name = "\(xzm_[a-z0-9_]*\)"/\1/p' lean/lakefile.toml | tr '\n' ' ')
-(cd lean && lake build XzVerif $exes 2>&1 | tail -5)
+# A failure here is not fatal: every check builds what it needs itself (and reports a broken proof obligation).
+(cd lean && lake build XzVerif $exes 2>&1 | tail -15) || true
 python3 - <<'PY'
 import sys, os
 sys.path.insert(0, os.path.join(os.getcwd(), "tools"))
 import vlib
-for v in ("asan", "rel"):
+rc = 0
+for v in ("asan", "rel", "dbg"):
     ok, log, bd = vlib.c_build(v)
     print("build", v, "ok" if ok else "FAILED")
     if not ok:
         print(log[-3000:])
-        sys.exit(1)
+        rc = 1
+sys.exit(rc)
 PY
 echo setup done
